@@ -52,16 +52,18 @@ def showState : PathState → String
   | .missing => "missing" | .dir => "dir" | .file => "file"
 
 def handle : List String → String
-  | ["sum", algok, file, cs] =>
+  | ["sum", algok, file, css] =>
+    -- one content, a comma-separated list of chunk-size arguments; replies joined by ';'
     let content : Option (Option Bytes) := if file = "X" then some none else (unhex file).map some
-    match parseBool algok, content, parseChunk cs with
-    | some algok, some content, some cs =>
+    match parseBool algok, content, (css.splitOn ",").mapM parseChunk with
+    | some algok, some content, some css =>
       -- the hash object records the toy hash and the length of every chunk it is fed
       let upd : Toy × List Nat → Bytes → Toy × List Nat :=
         fun (t, ls) c => (toyUpdate t c, c.length :: ls)
-      match computeChecksum upd id (toyInit, []) algok content cs with
-      | .ok (t, ls) => s!"ok lens={showRle (rle ls)} toy={t.h}:{t.len}"
-      | .error e => "err " ++ showExc e
+      String.intercalate ";" (css.map fun cs =>
+        match computeChecksum upd id (toyInit, []) algok content cs with
+        | .ok (t, ls) => s!"ok lens={showRle (rle ls)} toy={t.h}:{t.len}"
+        | .error e => "err " ++ showExc e)
     | _, _, _ => "bad-request"
   | ["last", content, num, fault] =>
     let fault : Option (Option Exc) := if fault = "-" then some none else (parseExc fault).map some
